@@ -185,6 +185,15 @@ func TestC12Netns(t *testing.T) {
 				c.Replies = rapid.SampledFrom([]int{0, 0, 3, 40}).Draw(t, "replies")
 			}
 			c.Rate = rapid.SampledFrom([]string{"", "", "200/s", "20/100ms", "3/s"}).Draw(t, "rate")
+			if c.Rate == "3/s" && total > 8 {
+				// keep the slow scans short: 8 probes at 3/s are enough to be interrupted between two probes
+				c.Bits, c.Ports = 29, nil
+				if strings.HasPrefix(c.Cmd, "tcp") || c.Cmd == "udp" {
+					c.Bits = 30
+					c.Ports = []gram.PortRange{{Start: 80, End: 80}, {Start: 443, End: 443}}
+				}
+				total = 8
+			}
 			if rapid.IntRange(0, 2).Draw(t, "how") == 0 {
 				c.AfterMs = rapid.SampledFrom([]int{0, 1, 5, 20, 60, 150, 320, 600}).Draw(t, "ms")
 			} else {
